@@ -484,7 +484,7 @@ def ssh_agrees(sshout, expected, ukh_set, names=()):
             if name == 'CertificateFile' and want is None:
                 want = ['l']
             if name == 'RekeyLimit' and want is not None and \
-                    e[7][name][2] == '()':
+                    e[7][name][2] in ('()', 'None'):
                 # ssh keeps size and time as two first-value-wins fields: a
                 # line without a time leaves the time to a later line
                 want, got = want[:2], got[:2]
